@@ -20,7 +20,9 @@ Definition type_compat (phys logical : N) : bool :=
 Definition logical_flat (l : N) : bool := (l =? 1) || (l =? 2).
 
 (* LookupPreset.__post_init__ *)
-Definition preset_ok (maxn : N) : bool := negb (maxn <? MIN_NAME_LOOKUP_SIZE).
+(* LookupPreset.__post_init__: the name table holds at least 8 entries; no table more than 4096 *)
+Definition preset_ok (maxn maxp maxd : N) : bool :=
+  negb (maxn <? MIN_NAME_LOOKUP_SIZE) && (maxn <=? MAX_LOOKUP_SIZE) && (maxp <=? MAX_LOOKUP_SIZE) && (maxd <=? MAX_LOOKUP_SIZE).
 
 (* ---------- flows.py ---------- *)
 Inductive flow_kind := FManual | FBounded | FFlatTriples | FFlatQuads | FGraphs | FDatasets.
@@ -106,7 +108,7 @@ Record stream := {
 
 (* Stream.__init__ (the LookupPreset check happens when the options are built) *)
 Definition stream_new (c : stream_class) (ig : integ) (o : soptions) : res stream :=
-  if negb (preset_ok (so_maxn o)) then Err Conformance else
+  if negb (preset_ok (so_maxn o) (so_maxp o) (so_maxd o)) then Err Conformance else
   do fl <- (match so_flow o with Some f => Ok f | None => infer_flow c o end);
   if negb (type_compat (physical_type c) (fl_logical fl)) then Err JAssertion else
   Ok {| st_class := c; st_integ := ig; st_opts := o;
